@@ -30,3 +30,10 @@ Print Assumptions C06_no_catch.
 Theorem C06_step2 `{Sig} : forall fa st o e, fst (step2 fa st o) = RErr e -> snd (step2 fa st o) = st.
 Proof. exact step2_err_noop. Qed.
 Print Assumptions C06_step2.
+
+(** The same for kernels (vertex insertion, fan / ear-clipping triangulation, swap, cut,
+    collapse) alone or composed with core calls in one user block. *)
+From HC Require Import Map2.Orbit2 Map2.Kern2 Map2.KOps2 Map2.KTx2Proofs.
+Theorem C06_stepk `{Sig} : forall fa st o e, fst (stepk fa st o) = RErr e -> snd (stepk fa st o) = st.
+Proof. exact stepk_err_noop. Qed.
+Print Assumptions C06_stepk.
